@@ -615,6 +615,145 @@ def merged_and_standalone_stream(ctx, res):
             judge({"stream": "merged-standalone", "what": "standalone-from-sub-schema", "depth": depth, "route": route}, got, want, "standalone-from-sub-schema")
 
 
+def links_stream(ctx, res, n):
+    """histories of list operations on a list of configurations — appends, insertions, deletions, lists derived from a list object that
+    is alive (copy, [:], + []; + [{...}]), assignment of such a list to the field, loads — against the model of the items'
+    back-references (Cinco/Config/Links.lean, theorems in Props/C15b.lean). After every operation, every item of the held list is
+    made to reject a value: the index the error names is the index the item has (direct oracle) and what the model reports."""
+    import cincoconfig as cc
+    from cincoconfig.core import ValidationError
+    rng = ctx.rng
+    reqs, pend = [], []
+    for i in range(n):
+        typed = rng.random() < 0.5
+        it = cc.Schema()
+        it.n = cc.IntField(default=0)
+        it.opts.ttl = cc.IntField(default=1)
+        T = cc.make_type(it, "LinkItem%d" % i) if typed else it
+        s = cc.Schema()
+        depth = rng.randint(0, 2)
+        holder, pre = s, []
+        for lvl in range(depth):
+            holder = getattr(holder, "lvl%d" % lvl)
+            pre.append("lvl%d" % lvl)
+        holder.items = cc.ListField(T, default=lambda: [])
+        cfg = s()
+        owner = cfg
+        for p_ in pre:
+            owner = owner[p_]
+        owner.items = []
+        # identities as the model draws them: the held list is 0, then one counter for lists and items
+        lists = {0: owner.items}
+        ids = {}                                   # id(item object) -> model identity
+        nxt = 1
+        ops, steps = [], []
+        ok = True
+        for step_no in range(rng.randint(4, 10)):
+            held = owner.items
+            alive = sorted(lists)
+            r = rng.random()
+            if step_no == 0:
+                r = 0.95                                   # start from a loaded list ...
+            elif ops and ops[-1]["op"] == "assign" and len(held) and rng.random() < 0.6:
+                r = rng.choice([0.25, 0.40])               # ... and change positions right after a derived list became the held one
+            try:
+                if r < 0.22:
+                    op = {"op": "appendNew"}
+                    held.append({"n": nxt})
+                    ids[id(held[-1])] = nxt
+                    nxt += 1
+                elif r < 0.32:
+                    k = 0 if r == 0.25 else rng.randint(0, len(held) + 1)
+                    op = {"op": "insertNew", "i": k}
+                    held.insert(k, {"n": nxt})
+                    ids[id(held[min(k, len(held) - 1)])] = nxt
+                    nxt += 1
+                elif r < 0.47 and len(held):
+                    k = rng.randrange(len(held))
+                    op = {"op": "delete", "i": k}
+                    del held[k]
+                elif r < 0.60:
+                    l = rng.choice(alive)
+                    op = {"op": "derive", "l": l}
+                    src = lists[l]
+                    lists[nxt] = rng.choice([lambda: src.copy(), lambda: src[:], lambda: src + []])()
+                    nxt += 1
+                elif r < 0.72:
+                    l = rng.choice([x for x in alive if type(lists[x]).__name__ == "ListProxy"] or [0])     # (a plain list + [map] holds the map itself, not an item)
+                    if type(lists[l]).__name__ != "ListProxy":
+                        continue
+                    op = {"op": "derivePlus", "l": l}
+                    lists[nxt] = lists[l] + [{"n": nxt + 1}]
+                    ids[id(lists[nxt][-1])] = nxt + 1
+                    nxt += 2
+                elif r < 0.88:
+                    l = rng.choice(alive)
+                    op = {"op": "assign", "l": l}
+                    if rng.random() < 0.5:
+                        owner.items = lists[l]
+                    else:
+                        cfg[".".join(pre + ["items"])] = lists[l]
+                    lists[l] = owner.items                       # (what is held from now on is the object the field reports)
+                else:
+                    k = rng.randint(2, 4) if step_no == 0 else rng.randint(0, 3)
+                    op = {"op": "load", "k": k}
+                    t = {"items": [{"n": nxt + 1 + j} for j in range(k)]}
+                    for p_ in reversed(pre):
+                        t = {p_: t}
+                    cfg.load_tree(t)
+                    owner = cfg
+                    for p_ in pre:
+                        owner = owner[p_]
+                    lists[nxt] = owner.items
+                    for j, obj in enumerate(owner.items):
+                        ids[id(obj)] = nxt + 1 + j
+                    nxt += k + 1
+            except Exception as e:  # noqa
+                res.hist["links:op-raised:%s" % type(e).__name__] += 1
+                ok = False
+                break
+            ops.append(op)
+            held = owner.items
+            named = []
+            for idx, obj in enumerate(held):
+                want = ".".join(pre + ["items[%d]" % idx, "n"])
+                try:
+                    obj.n = "not a number"
+                    got = "accepted"
+                except ValidationError as e:
+                    got = e.ref_path
+                except Exception as e:  # noqa
+                    got = type(e).__name__
+                m = re.match(r".*items\[(\d+)\]\.n\Z", got or "")
+                named.append(int(m.group(1)) if m else None)
+                if got != want:
+                    res.violate("C15:wrong-path:list-history", "after a history of list operations the validation error does not name the full path of the offending field",
+                                {"stream": "links", "ops": list(ops), "config_type": typed, "depth": depth, "got": got, "want": want})
+                    ok = False
+                    break
+            if not ok:
+                break
+            steps.append({"held": [ids.get(id(o)) for o in held], "reported": named})
+        res.case(stable([typed, depth, ops]) if any(o["op"] in ("assign", "derivePlus") for o in ops) and any(o["op"] == "delete" for o in ops) else None,
+                 sample={"ops": ops[:6]} if i < 2 else None, kind="links:len%d" % min(len(ops), 10))
+        for o in ops:
+            res.hist["links-op:" + o["op"]] += 1
+        if ok and ops:
+            reqs.append({"cmd": "links.run", "relink": True, "ops": ops})
+            pend.append(({"stream": "links", "ops": ops, "config_type": typed, "depth": depth}, steps))
+    replies = ctx.model(reqs)
+    if replies is not None:
+        for (case, steps), r in zip(pend, replies):
+            res.traces += 1
+            if "ok" not in r or len(r["ok"]) != len(steps):
+                res.disagree("C15.links.driver", case, impl=steps, model=r)
+                continue
+            for k, (a, b) in enumerate(zip(steps, r["ok"])):
+                if a["held"] != b["held"] or a["reported"] != b["reported"]:
+                    res.disagree("C15.links", dict(case, at=k), impl=a, model={"held": b["held"], "reported": b["reported"]})
+                    break
+
+
 def run(ctx, n_quick=250, n_thorough=8000):
     res = Result()
     P.run_stream(ctx, res, "C15", ctx.n(n_quick, n_thorough), oracle, gen_ops=gen_ops, ops_len=(8, 20))
@@ -622,6 +761,7 @@ def run(ctx, n_quick=250, n_thorough=8000):
     guard(res, "C15", include_docs, ctx, res)
     guard(res, "C15", container_path_stream, ctx, res, ctx.n(150, 4000))
     guard(res, "C15", merged_and_standalone_stream, ctx, res)
+    guard(res, "C15", links_stream, ctx, res, ctx.n(120, 4000))
     return res
 
 
